@@ -300,6 +300,39 @@ func c18History(run *mon.Run, hi int, r *rand.Rand, statesSeen map[thrState]bool
 			plans[c] = append(plans[c], p)
 		}
 	}
+	// boundary storms (a third of the histories): t valid shares are added first, then several
+	// goroutines race for the last slot while pollers read EnoughShares/HasShare and others call
+	// ThresholdSignature repeatedly
+	var prefill []thrPlanned
+	if hi%3 == 2 {
+		order := r.Perm(n)
+		for _, idx := range order[:t] {
+			prefill = append(prefill, thrPlanned{in: thrIn{Op: "TrustedAdd", Idx: idx, Cls: "V", InRng: true}, share: shares[idx]})
+		}
+		rest := order[t:]
+		nClients = min(len(rest), 2+r.IntN(4)) + 3
+		plans = make([][]thrPlanned, nClients)
+		for c := 0; c < nClients-3; c++ {
+			idx := rest[c%len(rest)]
+			op := []string{"TrustedAdd", "VerifyAndAdd"}[r.IntN(2)]
+			sh, cls := shares[idx], "V"
+			if r.IntN(6) == 0 {
+				sh, cls = mkShare(idx)
+			}
+			plans[c] = []thrPlanned{{in: thrIn{Op: op, Idx: idx, Cls: cls, InRng: true}, share: sh}, {in: thrIn{Op: "EnoughShares"}}, {in: thrIn{Op: "HasShare", Idx: idx, InRng: true}}}
+			if r.IntN(2) == 0 {
+				plans[c] = append(plans[c], thrPlanned{in: thrIn{Op: "TrustedAdd", Idx: order[r.IntN(t)], Cls: "V", InRng: true}, share: shares[order[0]]})
+			}
+		}
+		for c := nClients - 3; c < nClients-1; c++ {
+			for k := 0; k < 5; k++ {
+				plans[c] = append(plans[c], thrPlanned{in: thrIn{Op: []string{"EnoughShares", "EnoughShares", "HasShare"}[r.IntN(3)], Idx: rest[0], InRng: true}})
+			}
+		}
+		for k := 0; k < 3; k++ {
+			plans[nClients-1] = append(plans[nClients-1], thrPlanned{in: thrIn{Op: "ThresholdSignature"}})
+		}
+	}
 	// run
 	var clock atomic.Int64
 	recs := make([][]thrRecorded, nClients)
@@ -361,14 +394,27 @@ func c18History(run *mon.Run, hi int, r *rand.Rand, statesSeen map[thrState]bool
 			}
 		}(c)
 	}
+	var pre []thrRecorded
+	for _, p := range prefill {
+		rec := thrRecorded{client: nClients, in: p.in}
+		rec.call = clock.Add(1)
+		b, e := ins.TrustedAdd(p.in.Idx, p.share)
+		rec.out = thrOut{B1: b, Err: thrErrClass(e)}
+		rec.ret = clock.Add(1)
+		pre = append(pre, rec)
+	}
 	close(start)
 	wg.Wait()
 	var all []thrRecorded
+	all = append(all, pre...)
 	for _, rs := range recs {
 		all = append(all, rs...)
 	}
 	run.Eval(len(all))
 	run.Count("histories", 1)
+	if len(prefill) > 0 {
+		run.Count("boundary-storm-histories", 1)
+	}
 	run.Count("operations", len(all))
 	describe := func() []string {
 		sort.Slice(all, func(i, j int) bool { return all[i].call < all[j].call })
